@@ -55,6 +55,8 @@ def cases(tier, seed):
             out.append(c)
     for i, (fam, N, to, normalize) in enumerate(itertools.product([0, 2, 4], [1, 2], ['first', 'last'], [False, True])):
         out.append({'kind': 'zero', 'fam': fam, 'N': N, 'to': to, 'normalize': normalize, 'tier': tier, 'id': f'zero-{i}', 'seed': hash_seed(seed, 'C08', 'zero', i)})
+    for i, (obj, N, alpha) in enumerate(itertools.product(['mps', 'mpo'], [1, 2, 3], [1, 2, 0.5])):
+        out.append({'kind': 'entropy_wiring', 'obj': obj, 'N': N, 'alpha': alpha, 'tier': tier, 'id': f'entropy-{obj}-{N}-{alpha}', 'seed': hash_seed(seed, 'C08', 'ent', i)})
     for N in (1, 2, 3, 4):
         for to in ('first', 'last'):
             out.append({'kind': 'truncate_accumulate', 'N': N, 'to': to, 'tier': tier, 'id': f'trunc-acc-{N}-{to}', 'seed': 1})
@@ -343,6 +345,42 @@ def k_zero(ctx, spec):
     ctx.check(psi.pC is None, 'zero state: canonize_ leaves no central block')
     ctx.is_zero(dense_chain(psi, ph), 'zero state: canonize_ keeps the zero state')
     return {'N': N, 'zero_site': z}
+
+
+def k_entropy_wiring(ctx, spec):
+    """get_entropy: with get_Schmidt_values replaced by a recorder returning symbolic spectra and linalg.entropy by a recorder, every cut's
+    entropy is entropy(p) with p_i = s_i^2 (the Schmidt PROBABILITIES), for MPS and MPO alike, with the requested alpha"""
+    import yastn
+    import yastn.tn.mps as mps
+    import yastn.tn.mps._mps_obc as M
+    N, obj, alpha = spec['N'], spec['obj'], spec['alpha']
+    cfg = cat.make_config('U1')
+    psi = mps.Mps(N) if obj == 'mps' else mps.Mpo(N)
+    spectra = []
+    for k in range(N + 1):
+        leg = yastn.Leg(cfg, s=1, t=[(0,), (1,)], D=[1 + k % 2, 2])
+        t = yastn.zeros(config=cfg, legs=[leg, leg.conj()], isdiag=True) if False else yastn.eye(config=cfg, legs=[leg, leg.conj()], isdiag=True)
+        ctx.fill(t, f's{k}', 'real', nonneg=True)
+        spectra.append(t)
+    psi.get_Schmidt_values = lambda: list(spectra)
+    calls = []
+    tokens = [ctx.scalar(f'e{k}', 'real') for k in range(N + 1)]
+    def rec(a, alpha=1, tol=1e-12):
+        calls.append((a, alpha))
+        return tokens[len(calls) - 1]
+    old = M.entropy
+    M.entropy = rec
+    try:
+        res = psi.get_entropy(alpha=alpha)
+    finally:
+        M.entropy = old
+    ctx.check(len(res) == N + 1 and len(calls) == N + 1, 'get_entropy: one value per cut (N+1)', (len(res), len(calls)))
+    for k, ((a, al), r) in enumerate(zip(calls, res)):
+        ctx.check(r is tokens[k], 'get_entropy returns the entropies in the order of the cuts')
+        ctx.check(al == alpha, 'get_entropy passes alpha', al)
+        ctx.check(a.isdiag and a.struct == spectra[k].struct, 'entropy is taken of a diagonal tensor with the structure of the spectrum')
+        ctx.eq(list(a._data), [x * x for x in spectra[k]._data], f'cut {k}: entropy is taken of the squared Schmidt values (probabilities)')
+    return {'N': N, 'obj': obj, 'alpha': alpha}
 
 
 def k_truncate_accumulate(ctx, spec):
